@@ -250,9 +250,13 @@ def replay(obj):
 LEVEL_TEXT = ("Lean 4 theorems over R about an executable model of the resample block: the period sums of a NaN-skipping column add up to "
               "the column's total for every month-per-period count and every time-sorted frame (induction over rows), so totals agree at "
               "the daily, monthly and bi-monthly level; the period temperature is the mean of its present values; the root-sum-square of "
-              "the period uncertainties is the root-sum-square of all; periods are consecutive with no gaps; argument validation. The model "
-              "is tied to BillingModel.predict by a differential run over reporting frames in seven timezones.")
-LEVEL_NOTE = ("Trusted: Lean kernel + standard axioms; the hand model of pandas resample('MS'/'2MS') bucketing by local calendar month "
+              "the period uncertainties is the root-sum-square of all; periods are consecutive with no gaps; argument validation. T1: the "
+              "if-chain on `aggregation` and the per-column reductions of BillingModel.predict and BillingWeightedModel.predict are re-extracted "
+              "from the AST on every run (EEM.Gen.BillingAggTable); theorems show that chain computes the model's parseAgg for EVERY argument and "
+              "that every numeric cell of a model period is the source's reduction of that column. T2: differential run over reporting frames "
+              "in seven timezones.")
+LEVEL_NOTE = ("Trusted: Lean kernel + standard axioms; the aggregation-block extractor (py2lean/aggtable.py: anything outside its subset is "
+              "UNSUPPORTED = broken tie); the hand model of pandas resample('MS'/'2MS') bucketing by local calendar month "
               "(validated by T2 only); float summation order (compared at 1e-9 relative); np.sum on a Series skipping NaN.")
-TECHNIQUE = "Lean 4 proof (induction over rows, over R) + differential correspondence"
+TECHNIQUE = "Lean 4 proof (induction over rows, over R; decide on the re-extracted reduction table) + translator for the aggregation block + differential correspondence"
 ASSUMPTIONS = ["rows are time-sorted (the prediction frame is sorted by _predict)", "NaN cells are `none`; +-inf cells are outside the real-number theorems"]
